@@ -11,7 +11,7 @@ def report(chk, rows, what):
     for r in rows:
         chk.count_case(r["program"]["p"], nontrivial=len(r["program"]["p"]["ops"]) > 0)
         if r["bad"]:
-            chk.violation("%s-%s" % (what, r["curve"]), {"curve": r["curve"], "program": r["program"], "observed": {k: r[k] for k in ("pres", "vres", "decode")},
+            chk.violation("%s-%s-%s" % (what, r["curve"], r["program"].get("id", "")), {"curve": r["curve"], "program": r["program"], "observed": {k: r[k] for k in ("pres", "vres", "decode")},
                                                             "mismatch": r["bad"]}, "; ".join(r["bad"]))
 
 
